@@ -118,9 +118,11 @@ ErrProtoId(st, name) ==      \* the prototype object of the named error construc
         p == OM!GetProp(st.H, c.id, S_prototype)
     IN  p.d.v.id
 (* an Error instance remembers the trace captured at its creation and (for the named    *)
-(* deviation D19_error_text_from_construction) the name and message it was created with *)
+(* deviation D19_error_text_from_construction) the name and message it was created with; *)
+(* raw (for D19_internal_error_text_static_name): raised by the interpreter itself and   *)
+(* not yet seen by any try statement                                                     *)
 ErrObj(st, protoId, cname, cmsg) ==
-    [OM!NewObj("Error", protoId) EXCEPT !.fn = [k |-> "error", trace |-> CaptureTrace(st), cname |-> cname, cmsg |-> cmsg]]
+    [OM!NewObj("Error", protoId) EXCEPT !.fn = [k |-> "error", trace |-> CaptureTrace(st), cname |-> cname, cmsg |-> cmsg, raw |-> FALSE]]
 MkError(st, name, msg) ==
     LET a == Alloc(st, ErrObj(st, ErrProtoId(st, name), name, StrV(msg)))
         H2 == IF msg = <<>> THEN a.st.H ELSE DefData(a.st.H, a.id, S_message, StrV(msg), TRUE, FALSE, TRUE)
@@ -130,7 +132,7 @@ MkError(st, name, msg) ==
 ThrowErr(st, name) ==
     LET e == MkError(st, name, <<>>)
         H2 == DefData(e.st.H, e.v.id, S_message, [t |-> "unmodelled"], TRUE, FALSE, TRUE)
-    IN  Thr([SetH(e.st, H2) EXCEPT !.H[e.v.id].fn.cmsg = [t |-> "unmodelled"]], e.v)
+    IN  Thr([SetH(e.st, H2) EXCEPT !.H[e.v.id].fn.cmsg = [t |-> "unmodelled"], !.H[e.v.id].fn.raw = TRUE], e.v)
 (* the same, raised while evaluating the construct at (cx.file, off): the innermost     *)
 (* frame of the trace stands there (the frame itself is not moved)                      *)
 ThrowErrAt(st, cx, name, off) ==
@@ -139,7 +141,8 @@ ThrowErrAt(st, cx, name, off) ==
 (* (which D19_empty_message_undefined turns into the value undefined)                    *)
 ThrowErrNoMsg(st, name) ==
     LET e == MkError(st, name, <<>>)
-    IN  Thr(SetH(e.st, DefData(e.st.H, e.v.id, S_message, IF D("D19_empty_message_undefined") THEN Undef ELSE StrV(<<>>), TRUE, FALSE, TRUE)), e.v)
+    IN  Thr([SetH(e.st, DefData(e.st.H, e.v.id, S_message, IF D("D19_empty_message_undefined") THEN Undef ELSE StrV(<<>>), TRUE, FALSE, TRUE))
+                 EXCEPT !.H[e.v.id].fn.raw = TRUE], e.v)
 
 -----------------------------------------------------------------------------
 RECURSIVE Eval(_, _, _)            \* (node, cx, st) -> [st, v, thr]
@@ -893,8 +896,8 @@ EvalBody(node, cx, st) ==
             \* stack depth: a direct eval runs in the caller's context; an indirect one is a native
             \* call that then enters the global context (two levels)
             \* call stack (C19): eval(...) is a call whose site is the eval expression.  A direct eval runs
-            \* the eval code in the caller's frame, which then stands at positions of the eval source
-            \* (D19_eval_leaves_frame_file: otto switches the frame's file there and never switches back);
+            \* the eval code in the caller's frame, whose positions are then looked up in the eval source
+            \* (D19_eval_leaves_frame_file: otto never switches the frame's file back);
             \* an indirect eval is a call of the built-in function, which runs the code as global code.
             \* "bad": the text does not parse: 15.1.2.1 step 3 SyntaxError; "lhs": it parses but assigns to
             \* a non-reference, an early error (clause 16) of class ReferenceError (8.7.2 step 1)
@@ -904,7 +907,7 @@ EvalBody(node, cx, st) ==
                 extra == IF node.direct THEN 0 ELSE 2
                 stS == Site(st, cx, IF ~node.direct /\ D("D19_nonref_callee_site_dropped") THEN -1 ELSE Pos(node))
                 stE == IF node.direct
-                       THEN (IF D("D19_eval_leaves_frame_file") /\ Bad(node) = "" THEN [stS EXCEPT !.fr[Len(stS.fr)].file = FileOf(node)] ELSE stS)
+                       THEN (IF Bad(node) = "" THEN [stS EXCEPT !.fr[Len(stS.fr)].file = FileOf(node)] ELSE stS)
                        ELSE PushFrame(stS, NativeFrame)
             IN  IF extra > 0 /\ st.limit > 0 /\ st.depth + extra >= st.limit THEN ThrowErr(st, S_RangeError)
                 ELSE IF Bad(node) # "" THEN
@@ -1071,11 +1074,14 @@ ExecBody(s, cx, st, labels) ==
                                   c == IF start = 0 THEN Normal(f.st, Empty) ELSE CaseRun(s.cases, start, cx, f.st, Empty, 0)
                               IN  IF c.ty = "break" /\ c.tg = <<>> THEN Normal(c.st, c.v) ELSE c
       [] s.k = "try" ->                                                      \* 12.14
-            LET b == ExecList(s.block, 1, cx, st, Empty)
+            \* (Seen: an exception that passes through a try statement, caught or not, is no longer "raw")
+            LET Seen(x) == IF x.ty = "throw" /\ IsO(x.v) /\ x.st.H[x.v.id].fn.k = "error" /\ "raw" \in DOMAIN x.st.H[x.v.id].fn
+                           THEN [x EXCEPT !.st.H[x.v.id].fn.raw = FALSE] ELSE x
+                b == Seen(ExecList(s.block, 1, cx, st, Empty))
                 c == IF b.ty = "throw" /\ s.hasH
                      THEN LET e == NewDeclEnv(b.st, cx.lex)
                               st1 == CreateBinding(e.st, e.id, s.param, b.v, FALSE, TRUE)
-                          IN  ExecList(s.handler, 1, [cx EXCEPT !.lex = e.id], st1, Empty)
+                          IN  Seen(ExecList(s.handler, 1, [cx EXCEPT !.lex = e.id], st1, Empty))
                      ELSE b
             IN  IF ~s.hasF \/ Fatal(c.ty) THEN c
                 ELSE LET f == ExecList(s.fin, 1, cx, c.st, Empty)
